@@ -208,23 +208,8 @@ def run(ctx, F):
     okc = set(wcur) == {GOALS + "poll_next_goal", GOALS + "on_current_goal_completed"}
     ctx.judge(okc, "C14.goals-under-lock", "mutators of WorkerGoals.current", expected="{poll_next_goal, on_current_goal_completed}", found=str(sorted(wcur)),
               key="C14.goals-under-lock|writers-current")
+    check_poll_clears_one(ctx, F, "C14.goals-under-lock")
     png = F.fn(GOALS + "poll_next_goal")
-    # poll_next_goal clears exactly the request it returns: the store of `false` is under *requested == true
-    clr = [(bb, pl, t) for (bb, j, pl, t) in stores(png) if const_arg(t) is False]
-    def found_by_find(fn, tree):
-        """The entry comes out of `iter_mut().find(|(_, r)| **r)`: the first entry whose flag is set (idiom equivalent to the loop)."""
-        for s in walk(strip(tree)):
-            if s and s[0] == "call" and last_seg(s[2] or s[1]) == "find" and len(s[3]) == 2 and "requests" in show(s[3][0]):
-                cl = [x for x in walk(s[3][1]) if x and x[0] == "agg" and x[1][0] == "closure" and x[1][1] in F.fns]
-                if len(cl) == 1:
-                    rts = [strip(t2) for _, t2 in F.fns[cl[0][1][1]].flow.return_trees()]
-                    if rts and all(any(y == ("arg", 2) for y in walk(r)) and "Not(" not in show(r) for r in rts):
-                        return True
-        return False
-    okp = len(clr) == 1 and (any(p.val is True for p in guards(png, clr[0][0])) or found_by_find(png, png.flow.place_tree(clr[0][1], clr[0][0], 0)) or
-                             any(p.val in ("Continue", "Some") and found_by_find(png, p.tree) for p in guards(png, clr[0][0])))
-    ctx.judge(okp, "C14.goals-under-lock", "poll_next_goal clears only the request it takes", expected="one store of false, under *requested == true (or on the entry returned by find(|r| *r))",
-              found=str([(bb, guard_strs(png, bb)) for bb, _, _ in clr])[:300], where=where(png), key="C14.goals-under-lock|poll-clears-one")
     sr_ = F.fn(GOALS + "set_request")
     sets = [(bb, pl, t) for (bb, j, pl, t) in stores(sr_)]
     direct = [t for bb, pl, t in sets if "index_mut" in show(strip(sr_.flow.place_tree(pl, bb, 0)))]
